@@ -327,3 +327,32 @@ pub fn read_loop_total_bad(r: &mut dyn std::io::BufRead) -> std::io::Result<usiz
         line.clear();
     }
 }
+
+
+// ---------------------------------------------------------------------------------------------------------
+// folds: a combination in a loop must read its own accumulator (C19.R7)
+// ---------------------------------------------------------------------------------------------------------
+pub struct Mask(pub Vec<u8>);
+
+impl Mask {
+    pub fn intersect(&self, other: &Self) -> Vec<u8> {
+        self.0.iter().zip(other.0.iter()).map(|(a, b)| a & b).collect()
+    }
+}
+
+pub fn fold_accumulate_ok(tags: &[Mask]) -> Vec<u8> {
+    let mut mask = Mask(tags[0].0.clone());
+    for t in &tags[1..] {
+        mask = Mask(mask.intersect(t));
+    }
+    mask.0
+}
+
+/// overwrites the accumulator with the intersection of the current pair only
+pub fn fold_overwrite_bad(tags: &[Mask]) -> Vec<u8> {
+    let mut mask = tags[0].0.clone();
+    for pair in tags.windows(2) {
+        mask = pair[0].intersect(&pair[1]);
+    }
+    mask
+}
